@@ -107,7 +107,7 @@ type variant struct {
 func run(c *vf.Ctx) {
 	pls, als := ptLens(c.Thorough), adLens()
 	c.Rule(fmt.Sprintf("full grid path{asm(AVX2),generic} x {New,NewX} x %d plaintext lengths (every 0..%d, every k*64-1/k*64/k*64+1 to 8192, k*16-1/k*16/k*16+1 to 2048, 65535..65537, 70001) x "+
-		"%d AD lengths (every 0..33 incl. 13; 47..49, 63..65, 255..257, 600) x dst{nil,prefix+spare,prefix+capacity-1,prefix+exact (only the middle two above 1024 bytes; thorough: above 2048), IN PLACE Seal(plaintext[:0]) / Open(ciphertext[:0]) with exact capacity at every length and with spare capacity up to the same bound, inputs copied per call} x value classes (key,nonce,plaintext,AD drawn diagonally from the alphabet); "+
+		"%d AD lengths (every 0..33 incl. 13; 47..49, 63..65, 255..257, 600) x dst{nil,prefix+spare,prefix+capacity-1,prefix+exact (only the middle two above 1024 bytes; thorough: above 2048), IN PLACE Seal(plaintext[:0]) / Open(ciphertext[:0]) with exact capacity at every length and with spare capacity up to the same bound (quick: up to 320 bytes), inputs copied per call} x value classes (key,nonce,plaintext,AD drawn diagonally from the alphabet; quick: all-zero, ascending, 2 seeded; thorough: all 4 fixed + 4 seeded); "+
 		"each point: Seal == dst||RFC-model ciphertext||tag, Open(that) == dst||plaintext, inputs unmodified; non-trivial = distinct (path,variant,ptLen,adLen) with ptLen>=1; "+
 		"plus the STEERED-ACCUMULATOR family: for {New,NewX} x ciphertext lengths %v x AD lengths %v, messages crafted with math/big (one free 16-byte ciphertext block solved, nonce/filler varied) so that the AEAD's own Poly1305 accumulator, "+
 		"right before the lengths block and right before the final reduction, has low limb in {0,1,2^64-adLen-1,2^64-adLen,2^64-1,2^64-5,2^64-6} x middle limb {0,2^64-1} x top limb {0..3}, or equals 0..4, p-5..p+4, 2^130..2^130+4; sealed and opened (nil and in-place dst) on both paths; "+
@@ -148,6 +148,11 @@ func run(c *vf.Ctx) {
 	for _, an := range als {
 		for v := range variants {
 			for ci := 0; ci < nClasses; ci++ {
+				// quick tier: all-0xff and 0x80.. classes left out (the ciphertext the MAC sees is
+				// pseudo-random for every class); all-zero, ascending and the seeded classes stay
+				if !c.Thorough && (ci == 1 || ci == 2) {
+					continue
+				}
 				units = append(units, unit{v, ci, an})
 			}
 		}
@@ -220,6 +225,9 @@ func run(c *vf.Ctx) {
 					// branches of the append logic); nil and exact-capacity repeat those branches
 					if (n > 1024 && !c.Thorough || n > 2048) && (dm == dstNil || dm == dstExact || dm == dstInPlaceSpare) {
 						continue
+					}
+					if dm == dstInPlaceSpare && n > 320 && !c.Thorough {
+						continue // quick: in place with spare capacity only up to the assembly's short-input paths
 					}
 					det := func() map[string]any {
 						return map[string]any{"path": ph.name, "variant": va.name, "ptLen": n, "adLen": u.an, "dst": dstName[dm], "class": u.ci}
